@@ -55,6 +55,15 @@ def cases(ctx):
                 c2["out_bits"] = {str(len(tx["outs"]) - 1): flat}
             if "in_bits" in c2 or "out_bits" in c2:
                 yield c2
+        # inputs as the construction API allows them but no parser produces them: previous-transaction ids that are NOT 32 bytes long
+        # (empty as in TxIn::default(), 1, 31, 33, 64 bytes; all zero and not), with the null output index and ordinary ones, and scripts of
+        # one push / one opcode / nothing - every field survives the document forms unchanged
+        if i == 0:
+            for tl in (0, 1, 31, 33, 64):
+                for fill in (0x00, 0xAB):
+                    for vout_ in (0xFFFFFFFF, 0, 7):
+                        for sc_ in ("03aabbcc", "51", "", "015152", "4c03aabbcc"):
+                            yield {"k": "txin", "in": {"txid": ("%02x" % fill) * tl, "vout": vout_, "script": sc_, "coinbase": False, "seq": 0xFFFFFFFE}, "odd_txid": True}
         for i_, e in zip(tx["ins"], ext):
             c = {"k": "txin", "in": {"txid": i_["txid_wire"][::-1].hex(), "vout": i_["vout"], "script": i_["script"].hex(), "coinbase": wire.is_coinbase_in(i_), "seq": i_["seq"]}}
             if e:
@@ -196,6 +205,8 @@ def judge(ctx, case):
                 ctx.viol("%s round trip of a %s changes fields: %s" % (fmt, kind, "unlocking script of the coinbase input (wire bytes, id)" if coin_only else ",".join(d[:4])), {"via": via, "fields": d})
     else:
         ctx.hit("txin")
+        if case.get("odd_txid"):
+            ctx.hit("txin_with_a_txid_that_is_not_32_bytes")
         ctx.nontrivial()
         r = ctx.call({"op": "txin_codec", "in": case["in"]})
         if "ok" not in r:
